@@ -100,6 +100,13 @@ def term_set(fx, sy, t, depth):
         return set(), {S.tstr(t[2][0])}
     if t[0] == "apply" and t[2] == (("bound", 0),):
         return set(), {S.tstr(t[1])}
+    # `delimiters.contains(byte)`: a byte set given as a slice - a literal, or the caller's (a parameter)
+    if t[0] == "call" and t[1].endswith("slice::contains") and len(t[2]) == 2 and t[2][1] == ("bound", 0):
+        lb = lit_bytes(t[2][0])
+        if lb is not None:
+            return set(lb), set()
+        if t[2][0][0] == "in":
+            return set(), {S.tstr(t[2][0])}
     return None
 
 
@@ -408,6 +415,8 @@ def describe(fx, sy, c):
     if nm in ("parse_until", "parse_until_no_newline"):
         p = c[2][1]
         r = byteset(fx, sy, p) if p[0] in ("closure", "fnref") else None
+        if r is None and lit_bytes(p) is not None:
+            r = (frozenset(lit_bytes(p)), frozenset())      # the stop set handed over as a byte-string (the combinator rule checks `contains`)
         bs = tuple(sorted(r[0])) if (r is not None and not r[1]) else None
         return ("until" if nm == "parse_until" else "until_nn", bs)
     return (nm, None)
